@@ -346,7 +346,8 @@ UNITS["h2c.pipelines"] = Unit("h2c.pipelines", u_pipelines,
 def u_h2c_closed(ctx):
     from contracts.closed import eval_facts, lean_cite
     eval_facts(ctx, ["swu.constants", "swu.G1.sqrt-constant", "swu.exceptional-x1-square", "swu.no-y0", "swu.G2.etas",
-                     "swu.isogeny-G1-maps-Eprime-into-E", "swu.isogeny-G2-maps-Eprime-into-E", "bls.cofactors", "swu.sgn0-flip"])
+                     "swu.isogeny-G1-maps-Eprime-into-E", "swu.isogeny-G2-maps-Eprime-into-E", "bls.cofactors", "swu.sgn0-flip",
+                     "h2c.cofactor-kills-twist-cofactor"])
     lean_cite(ctx, [("Fields.lean", "sqrt34_check_iff", "sqrt_division_FQ: the test succeeds iff u/v is a square"),
                     ("Fields.lean", "sqrt34_of_not_isSquare", "otherwise result^2 v = -u"),
                     ("Roots.lean", "sqrt_div_candidate_iff", "sqrt_division_FQ2 candidates"), ("Roots.lean", "sqrt_div_eta_iff", "eta candidates"),
